@@ -475,12 +475,12 @@ def coq_case(idx: int, case: dict, impl: dict, expected) -> str:
     nyf = impl["Za"].shape[0]
     nxi = impl["Ua"].shape[0]
     pin = period_inputs(case, impl)
-    sol = (f"(mkSolution QMat {n} {nw} {nu} {nyf} {nxi} {q_mat(impl['Ta'])} {q_mat(impl['Pa']) if nu else q_mat(np.zeros((n,0)))} "
+    sol = (f"(@mkSolution QMat {n} {nw} {nu} {nyf} {nxi} {q_mat(impl['Ta'])} {q_mat(impl['Pa']) if nu else q_mat(np.zeros((n,0)))} "
            f"{q_col(impl['Ka'])} {q_mat(impl['Za'])} {q_mat(impl['H']) if nw else q_mat(np.zeros((nyf,0)))} {q_col(impl['D'])} "
            f"{q_mat(impl['Ua'])} [{'; '.join(str(i) + '%nat' for i in impl['curr_idx'])}])")
     pds = []
     for p in pin:
-        pds.append(f"(mkPdata QMat {n} {nw} {nu} {nyf} [{'; '.join(coq_bool(b) for b in p['mask'])}] {q_col(p['y'])} "
+        pds.append(f"(@mkPdata QMat {n} {nw} {nu} {nyf} [{'; '.join(coq_bool(b) for b in p['mask'])}] {q_col(p['y'])} "
                    f"{q_list(p['std_u'])} {q_list(p['std_w'])} {q_col(p['u0'])} {q_col(p['w0'])} None)")
     exp = "[" + "; ".join("None" if v is None else f"Some {q_lit(v)}" for v in expected) + "]"
     return (f"Definition sol_{idx} := {sol}.\n"
